@@ -416,9 +416,13 @@ def modifyEomCommit (s : SeqState) (n : ChName) (c : ChanState) (e : EomIn) (det
         else done s2
       store (.modifyEom n { e with optimal := detOff }) r
 
-/-- `declare_channel(..., initial_target=...)`: when the initial target is refused nothing stays
-declared (repair of F2.9–F2.13: the refused call used to leave the channel, and the mode it
-implies, behind). -/
+/-- A refused call leaves nothing behind.  `declare_channel(..., initial_target=...)`: when the
+initial target is refused nothing stays declared (repair of F2.9–F2.13).  `delay`, `align`,
+`target`, `enable_eom_mode`, `modify_eom_setpoint`, `disable_eom_mode`: the instructions appended
+before the refusal (fall-time waits, delays on the other channels, EOM buffers, the closed block)
+are taken back (`_Schedule.restored_on_error`; repair of F2.3–F2.8, F2.14–F2.19).  In the model the
+whole call is wrapped; the parts of these calls that come after the scheduler step (drift
+correction, record) cannot fail on a reachable state. -/
 def Raw.orRollback (r : Raw) (s : SeqState) : Raw :=
   match r.err with
   | none => r
@@ -484,7 +488,7 @@ def stepRaw (s : SeqState) (op : Op) : Raw :=
     let k := (s.chans.filter fun c => match c.name with | .dmm i _ => i == dmmId | _ => false).length
     let c := SeqState.freshChan (ChName.dmm dmmId k) dmmId cfg s.allQubits true maxW sumW
     store op (done (s.addChannel c))
-  | .target qs n => store op (targetCore s qs n)
+  | .target qs n => store op ((targetCore s qs n).orRollback s)
   | .add p n proto =>
     store op <| markNonEmpty <|
       if s.measured.isSome then fail s .measured
@@ -517,9 +521,9 @@ def stepRaw (s : SeqState) (op : Op) : Raw :=
                            sum := { maxAmp := b.amp, avgAmp := b.amp, maxAbsDetR := absDet,
                                     maxDetR := b.detOn, minDetR := b.detOn } }
       addCore s p n proto (if corr then some (lastEomPulseDrift c) else none)
-  | .delay d n atRest => store op (delayChecked s d n atRest)
+  | .delay d n atRest => store op ((delayChecked s d n atRest).orRollback s)
   | .align chs atRest =>
-    store op <|
+    store op <| Raw.orRollback (s := s) <|
       if s.measured.isSome then fail s .measured
       else if chs.any (fun n => (s.getChan n).isNone) then fail s .alignUnknown
       else if chs.eraseDups.length ≠ chs.length then fail s .alignDup
@@ -543,7 +547,7 @@ def stepRaw (s : SeqState) (op : Op) : Raw :=
     else match processEomParams c e with
     | .error er => fail s er
     | .ok detOff =>
-    enableEomCommit s n c e detOff
+    (enableEomCommit s n c e detOff).orRollback s
   | .modifyEom n e =>
     if s.measured.isSome then fail s .measured
     else match s.validateChannel n false with
@@ -553,9 +557,9 @@ def stepRaw (s : SeqState) (op : Op) : Raw :=
     else match processEomParams c e with
     | .error er => fail s er
     | .ok detOff =>
-    modifyEomCommit s n c e detOff
+    (modifyEomCommit s n c e detOff).orRollback s
   | .disableEom n corr =>
-    store op <|
+    store op <| Raw.orRollback (s := s) <|
       if s.measured.isSome then fail s .measured
       else match s.validateChannel n false with
       | .error er => fail s er
